@@ -51,10 +51,13 @@ try:
         res["error"] = "cannot determine package/tests from WHERE.txt/demo"
         raise SystemExit
     runre = "^(%s)$" % "|".join(tests)
+    race = "-race " if "-race" in where else ""
+    if race:
+        ENV["CGO_ENABLED"] = "1"
     demo_dst = os.path.join(wt, pkg, "zz_seed_demo_test.go")
     # demo without patch
     shutil.copy(os.path.join(seed, "demo_test.go"), demo_dst)
-    rc0, out0 = sh("go test -vet=off -count=1 -run '%s' ./%s" % (runre, pkg), wt)
+    rc0, out0 = sh("go test %s-vet=off -count=1 -run '%s' ./%s" % (race, runre, pkg), wt)
     res["demo_without_patch"] = "PASS" if rc0 == 0 else "FAIL"
     os.remove(demo_dst)
     # apply patch; build; suite
@@ -67,10 +70,10 @@ try:
         missing = suite(wt) & missing  # tolerate one-off flakes: must be missing twice
     res["baseline_tests_not_passing_with_patch"] = sorted(missing)
     shutil.copy(os.path.join(seed, "demo_test.go"), demo_dst)
-    rc1, out1 = sh("go test -vet=off -count=1 -run '%s' ./%s" % (runre, pkg), wt)
+    rc1, out1 = sh("go test %s-vet=off -count=1 -run '%s' ./%s" % (race, runre, pkg), wt)
     res["demo_with_patch"] = "PASS" if rc1 == 0 else "FAIL"
     res["demo_with_patch_tail"] = out1[-600:]
-    res["demo_cmd"] = "copy demo_test.go into %s/ ; go test -vet=off -count=1 -run '%s' ./%s" % (pkg, runre, pkg)
+    res["demo_cmd"] = "copy demo_test.go into %s/ ; go test %s-vet=off -count=1 -run '%s' ./%s" % (pkg, race, runre, pkg)
     ok = res["builds_with_patch"] and not missing and rc0 == 0 and rc1 != 0
     res["confirmed"] = bool(ok)
     if ok:
